@@ -133,6 +133,7 @@ macro_rules! uint_to_prim {
     }};
 }
 
+#[allow(deprecated)] // the deprecated shim is part of the surface
 fn uint_to_uint<const B: usize, const L: usize, const B2: usize, const L2: usize>(u: Uint<B, L>) {
     let v = num(&u);
     let m = pow2(B2);
